@@ -62,7 +62,7 @@ Theorem C27_lookup_seed : forall s, valid s = true -> forall e cur real, family 
   find_in_cache s true e cur true real = lookup_spec s e real.
 Proof. exact find_seed. Qed.
 Print Assumptions C27_lookup_seed.
-(* items of a many-to-many collection typed as an ancestor class come out with their creation class *)
+(* items of a many-to-many collection typed as an ancestor class, iterated while the session is alive, come out with their creation class *)
 Theorem C27_collection_item : forall s, valid s = true -> forall cur real, family s cur real -> collection_item_class s cur real = real.
 Proof. exact collection_item_refined. Qed.
 Print Assumptions C27_collection_item.
